@@ -31,10 +31,16 @@ def dump(crate, log=None):
     cmd = ["cargo", "+nightly", "rustc", "--offline", "--lib", "--target-dir", tdir] + extra + [
         "--", "-Zunpretty=mir", "-C", "overflow-checks=on", "-C", "debug-assertions=off", "-Awarnings"]
     t0 = time.time()
-    with open(out + ".tmp", "w") as fo, open(err, "w") as fe:
+    tmp = "%s.%d.tmp" % (out, os.getpid())
+    err = "%s.%d" % (err, os.getpid()) if os.environ.get("VERIF_PARALLEL") else err
+    with open(tmp, "w") as fo, open(err, "w") as fe:
         rc = subprocess.call(cmd, cwd=os.path.join(core.REPO, rel), env=env, stdout=fo, stderr=fe, timeout=1800)
     dt = time.time() - t0
-    if rc != 0 or os.path.getsize(out + ".tmp") < 1000:
+    if rc != 0 or os.path.getsize(tmp) < 1000:
+        try:
+            os.remove(tmp)
+        except OSError:
+            pass
         raise RuntimeError("MIR dump of %s failed (rc=%d), see %s" % (crate, rc, err))
-    os.replace(out + ".tmp", out)
+    os.replace(tmp, out)
     return out, dt
